@@ -64,3 +64,45 @@ func ZZC09Worker() {
 }
 
 func init() { vn.Register("process.ZZC09Worker", ZZC09Worker) }
+
+// zzBuildProgram assembles a tiny program from defect switches (as ZZC09Worker does).
+func zzBuildProgram(e1, e2, e3, e4, e5 bool) ([]*Process, *GlobalEnvironment) {
+	unit := func() types.SessionType {
+		return types.ConvertSessionTypeInitialToSessionType(types.NewUnitTypeInitial())
+	}
+	defs := []types.SessionTypeDefinition{{Name: "T", SessionType: unit()}}
+	if e1 {
+		defs = append(defs, types.SessionTypeDefinition{Name: "T", SessionType: unit()})
+	}
+	types.SetModalityTypeDef(defs)
+	fd := FunctionDefinition{FunctionName: "f", Body: &zzProbe{id: 0, accept: !e4}, Type: unit()}
+	if e2 {
+		fd.Type = nil
+	}
+	funs := []FunctionDefinition{fd}
+	pq := &zzProbe{id: 1, accept: !e5}
+	if e3 {
+		pq.free = []Name{{Ident: "nowhere"}}
+	}
+	procs := []*Process{NewProcess(pq, []Name{{Ident: "m", IsSelf: true}}, unit(), LINEAR, position.Position{})}
+	return procs, &GlobalEnvironment{Types: &defs, FunctionDefinitions: &funs}
+}
+
+// ZZC19TypecheckTwice (C19): the verdict on a program is the same from the initial state and
+// after another program (accepted or rejected, with whatever its worker goroutine leaves
+// behind) has been typechecked in the same process.
+func ZZC19TypecheckTwice() {
+	a1, a2, a3, a4, a5 := vn.Bool(), vn.Bool(), vn.Bool(), vn.Bool(), vn.Bool()
+	b1, b2, b3, b4, b5 := vn.Bool(), vn.Bool(), vn.Bool(), vn.Bool(), vn.Bool()
+	pb0, gb0 := zzBuildProgram(b1, b2, b3, b4, b5)
+	first := Typecheck(pb0, nil, gb0)
+	pa, ga := zzBuildProgram(a1, a2, a3, a4, a5)
+	_ = Typecheck(pa, nil, ga)
+	vn.Drain()
+	pb1, gb1 := zzBuildProgram(b1, b2, b3, b4, b5)
+	second := Typecheck(pb1, nil, gb1)
+	vn.Assert("C19.verdict-independent-of-history", (first == nil) == (second == nil))
+	vn.Drain()
+}
+
+func init() { vn.Register("process.ZZC19TypecheckTwice", ZZC19TypecheckTwice) }
